@@ -157,6 +157,8 @@ def execute_c11(scenario, params, streams=None):
                 )
             scenario["alts"] = alts
         base_digest = core.digest(base)
+        # interleaving measure for C11: the distinct schedules executed
+        meta["interleavings"] = [core.digest(sigma)] + [core.digest(a) for a in scenario["alts"]]
         mine = helpers.my_hashseed()
         for j, alt in enumerate(scenario["alts"]):
             asig = {"uuid_seed": alt["uuid_seed"], "salt": alt["salt"], "hashseed": alt["hashseed"]}
@@ -710,6 +712,7 @@ def execute_c05(scenario, params, streams=None):
                 world, model, sdesc, "C05", si, gen_cb=gen_cb, sink=scenario["sessions"], check_shape=lambda m, sd: gen.shape_ok(m, sd, params) and gen.ops_allowed(m, sd)
             )
             out.append(sess)
+            meta["interleavings"].append(core.digest([sess.steps, sorted(sess.fired.items()), plan]))
             for k, v in sess.fired.items():
                 stats["fault." + k] += v
             failed = sess.error is not None
@@ -1011,6 +1014,12 @@ def shrink_candidates(prop, scenario):
             c = copy.deepcopy(sc)
             _drop_ops(c["sessions"][si], {oi})
             yield c
+    # knobs off
+    for si, s in enumerate(sc["sessions"]):
+        if s.get("debug_log"):
+            c = copy.deepcopy(sc)
+            del c["sessions"][si]["debug_log"]
+            yield c
     # simplify patches
     for si, s in enumerate(sc["sessions"]):
         for oi, op in enumerate(s["ops"]):
@@ -1108,7 +1117,7 @@ def _module_candidates(sc):
                     continue
                 if any(l in used_labels for l in b.get("labels", []) + b.get("end_labels", [])):
                     continue
-                if b["id"] in (mod.get("entry_point"), mod.get("dt_init"), mod.get("dt_fini")):
+                if b["id"] in (mod.get("entry_point"), mod.get("dt_init"), mod.get("dt_fini")) or b["id"] in (mod.get("safe_seh") or ()):
                     continue
                 if len(u["blocks"]) == 1:
                     continue
